@@ -13,7 +13,7 @@ from ..oracles import ts72
 from .common import need_func, need_class, methods
 
 LEVEL = 'other'
-TECHNIQUE = 'typestate over a statement CFG with exceptional edges (in-place scaling must be undone on every exit, may-raise classification from Cython noexcept facts); bounds of every access to a fixed-size C array by abstract interpretation of the kernels plus interval analysis of the solver indices; dominance of data accessors by the success flag; loop-progress lint; dispatch totality by partial evaluation; LAPACK status def-use discipline; length guards before raw pointers; whole-function symbolic execution of cf_radial_solver logging every out-of-extent access and comparing the five input arrays on normal, failing and raising exits'
+TECHNIQUE = 'typestate over a statement CFG with exceptional edges (in-place scaling must be undone on every exit, may-raise classification from Cython noexcept facts); bounds of every access to a fixed-size C array by abstract interpretation of the kernels plus interval analysis of the solver indices; dominance of data accessors by the success flag; loop-progress lint; dispatch totality by partial evaluation; LAPACK status def-use discipline; length guards before raw pointers; whole-function symbolic execution of cf_radial_solver logging every out-of-extent access and comparing the five input arrays on normal, failing and raising exits, with heap blocks sized from their allocation; check-after-use contradiction rule on parameter guards; executions on malformed layer structures; entry-point argument binding; declared C integer widths of loop indices'
 LEVEL_TEXT = ('Crashes and hangs inside CyRK/LAPACK are out of reach. Decided: every exit of cf_radial_solver after the in-place non-dimensionalisation passes the restoring call (normal, explicit raise, and statements that may raise Python exceptions); '
               'no access to a stack array is outside its declared extent for any layer-kind combination; numeric accessors are dominated by `success`; `success` is set only on the error-free path; loops make progress; every assumption combination reaches a handler or a raise.')
 LEVEL_NOTE = ('Trusted: Cython-subset front-end incl. recorded array extents and noexcept qualifiers, CFG builder, interval rules. Restoration to "a few ulp" (x c then / c) is arithmetic, not decided. Memory leaks are outside the property.')
